@@ -61,7 +61,7 @@ b64str = st.binary(max_size=12).map(rb.encode)
 
 
 @st.composite
-def plans(draw, sers=SERS, algs=None, encs=None, max_recipients=4, allow_zip=True, small=False):
+def plans(draw, sers=SERS, algs=None, encs=None, max_recipients=4, allow_zip=True, small=False, force_zip=None, curves=None):
     algs = algs or ALGS
     encs = encs or ENCS
     ser = draw(st.sampled_from(sers))
@@ -78,13 +78,13 @@ def plans(draw, sers=SERS, algs=None, encs=None, max_recipients=4, allow_zip=Tru
         enc = draw(st.sampled_from([e for e in encs if e in CBC] or CBC))
     else:
         enc = draw(st.sampled_from(encs))
-    zipv = "DEF" if allow_zip and draw(st.integers(0, 3)) == 0 else None
+    zipv = ("DEF" if force_zip else None) if force_zip is not None else ("DEF" if allow_zip and draw(st.integers(0, 3)) == 0 else None)
     pt = draw(plaintexts if (zipv is None or small) else st.one_of(plaintexts, compressible))
     aad = draw(st.one_of(st.none(), st.binary(min_size=1, max_size=20))) if ser != "compact" else None
     same_alg = len(set(alglist)) == 1
     place = "protected" if ser == "compact" else draw(st.sampled_from(["protected", "unprotected", "recipient"] if same_alg else ["recipient"]))
     # ECDH: one curve for all agreement recipients sharing a sender key
-    curve = draw(st.sampled_from(EC_CURVES + X_CURVES))
+    curve = draw(st.sampled_from(curves or (EC_CURVES + X_CURVES)))
     sender = None
     if any(a in rjwe.ECDH_1PU for a in alglist):
         sender = gk.key_to_record(draw(key_for("ECDH-1PU", enc, curve)))
